@@ -195,6 +195,10 @@ pub fn run_one(tier: &str, check: &str, seed: u64, tmp: &Path, log: Option<&mut 
             let evs = crate::t4::generate(seed);
             with_runtime(crate::t4::run_events(seed, &evs, tmp, "g"))
         }
+        "t15" => {
+            let evs = crate::t15::generate(seed);
+            with_runtime(crate::t15::run_events(seed, &evs, tmp, "g"))
+        }
         "t5" => {
             let (rt, h) = t5_env(tmp)?;
             let clients = crate::t5::generate(seed);
@@ -238,6 +242,13 @@ pub fn run_list(
                 .map(|e| serde_json::from_value(e.clone()))
                 .collect::<Result<_, _>>()?;
             with_runtime(crate::t4::run_events(seed, &evs, tmp, tag))
+        }
+        "t15" => {
+            let evs: Vec<crate::t15::Ev> = events
+                .iter()
+                .map(|e| serde_json::from_value(e.clone()))
+                .collect::<Result<_, _>>()?;
+            with_runtime(crate::t15::run_events(seed, &evs, tmp, tag))
         }
         "t7" => {
             let Some(k) = events.first().and_then(|e| e.get("case")).and_then(|c| c.as_u64()) else {
